@@ -53,6 +53,7 @@ type Input struct {
 	Types   []string `json:"types"`
 	Base    string   `json:"base"` // OutputFileBaseName
 	All     bool     `json:"all,omitempty"`
+	Prev    bool     `json:"prev,omitempty"` // every generator has a (longer, valid) previous output file in place
 	Gens    []Gen    `json:"gens"`
 }
 
@@ -198,6 +199,14 @@ func WriteModule(root string, in *Input) error {
 	b.WriteString("package " + in.PkgName + "\n\n")
 	for _, t := range in.Types {
 		b.WriteString("type " + t + " struct{}\n\n")
+	}
+	if in.Prev {
+		for i, g := range in.Gens {
+			old := fmt.Sprintf("package %s\n\nvar Old%d = %d\n\n%s", in.PkgName, i, i, strings.Repeat("// previous output, to be replaced\n", 200))
+			if err := os.WriteFile(filepath.Join(dir, in.Base+"."+g.Name+".go"), []byte(old), 0o644); err != nil {
+				return err
+			}
+		}
 	}
 	return os.WriteFile(filepath.Join(dir, "src.go"), []byte(b.String()), 0o644)
 }
